@@ -86,20 +86,23 @@ type violation struct {
 func (v violation) class() string { return v.Property + "|" + v.Oracle + "|" + v.Key }
 
 type replayRec struct {
-	Property  string    `json:"property"`
-	Harness   string    `json:"harness"`
-	Config    string    `json:"config"`
-	Tier      string    `json:"tier"`
-	Race      bool      `json:"race"`
-	Seed      uint64    `json:"seed"`
-	Idx       int       `json:"run_index"`
-	Tape      []int32   `json:"tape"`
-	BySeed    bool      `json:"by_seed,omitempty"`
-	Violation violation `json:"violation"`
-	Sample    any       `json:"case,omitempty"`
-	Trace     []string  `json:"trace,omitempty"`
-	Shrunk    string    `json:"shrunk,omitempty"`
-	RaceText  string    `json:"race_report,omitempty"`
+	Property    string    `json:"property"`
+	Harness     string    `json:"harness"`
+	Config      string    `json:"config"`
+	Tier        string    `json:"tier"`
+	Race        bool      `json:"race"`
+	Seed        uint64    `json:"seed"`
+	Idx         int       `json:"run_index"`
+	Tape        []int32   `json:"tape"`
+	BySeed      bool      `json:"by_seed,omitempty"`
+	Violation   violation `json:"violation"`
+	Sample      any       `json:"case,omitempty"`
+	Trace       []string  `json:"trace,omitempty"`
+	Shrunk      string    `json:"shrunk,omitempty"`
+	RaceText    string    `json:"race_report,omitempty"`
+	HistFrom    int       `json:"history_from"`
+	HistStride  int       `json:"history_stride"`
+	WithHistory bool      `json:"with_history,omitempty"`
 }
 
 type knownFile struct {
@@ -605,6 +608,20 @@ func check(id, tier string) int {
 		code, out := runReplay(b, path)
 		for attempt := 0; code == 3 && attempt < 4; attempt++ {
 			code, out = runReplay(b, path)
+		}
+		if code == 3 && !rp.Race && !rp.BySeed && rp.HistStride > 0 && rp.HistFrom < rp.Idx {
+			// a property over histories: the state left in the process by the runs the
+			// worker had executed before may be part of the failing input
+			rp.WithHistory = true
+			jb, _ := json.MarshalIndent(rp, "", " ")
+			os.WriteFile(path, jb, 0o644)
+			code, out = runReplay(b, path)
+			if code != 1 {
+				code = 3 // a resource death inside the re-executed history is not a reproduction
+			}
+			if code == 1 {
+				fmt.Printf("  (reproduces in a fresh process only after re-executing the %d earlier runs of its worker: history-dependent)\n", (rp.Idx-rp.HistFrom)/rp.HistStride)
+			}
 		}
 		switch code {
 		case 1:
